@@ -49,12 +49,19 @@ for d, _, files in os.walk(hroot):
         name = fn if fn.startswith("zz_verif_") else "zz_verif_" + fn
         rep[os.path.join(REPO, rel, name)] = os.path.join(d, fn)
 
+# 3b. generated instrumented copies: every tools/gen_*.py prints a JSON object {repo path: replacement path}
+# (it regenerates the replacement from the CURRENT repo file into .build/gen/)
+import subprocess
+for g in sorted(glob.glob(os.path.join(VERIF, "tools", "gen_*.py"))):
+    o = subprocess.check_output([sys.executable, g, REPO, GEN], text=True)
+    rep.update(json.loads(o))
+
 # 4. extra
 extra = os.environ.get("VERIF_EXTRA_OVERLAY")
 if extra:
     rep.update(json.load(open(extra))["Replace"])
 
-out = os.path.join(BUILD, "overlay.json")
+out = sys.argv[1] if len(sys.argv) > 1 else os.path.join(BUILD, "overlay.json")
 tmp = out + ".%d" % os.getpid()
 json.dump({"Replace": rep}, open(tmp, "w"), indent=1, sort_keys=True)
 os.replace(tmp, out)
